@@ -21,6 +21,7 @@ function ff() return boolean is begin return false; end;
 function fn() return boolean is begin return bool(); end;
 function fu() return undefined is begin return null; end;
 vtb = tab(2, 1); ntb = tab(); ntt = tab(1, 1); ntt = null; vtp = tup(1, "a"); ntp = tup();
+tbb = tab(1, true); forall fe in tbb loop nop; end loop;
 function fnn() return boolean is begin return null; end;
 function foff(i) return boolean is begin if i > 0 then return true; end if; end;
 """
@@ -28,7 +29,7 @@ function foff(i) return boolean is begin if i > 0 then return true; end if; end;
 ATOMS = {
     "T": ["true", "bool(1)", "vt", "ft()", "tt.at(0)", "rr@1", "(one == one)", "(not vf)", "on", "foff(1)"],
     "F": ["false", "bool(0)", "vf", "ff()", "tf.at(0)", "rr@2", "(one == two)", "(not vt)", "off"],
-    "N": ["null", "bool()", "vn", "vu", "fn()", "fu()", "tn.at(0)", "rr@3", "(one == ni)", "(not vn)", "(null == null)", "fnn()", "foff(0)"],
+    "N": ["null", "bool()", "vn", "vu", "fn()", "fu()", "tn.at(0)", "rr@3", "(one == ni)", "(not vn)", "(null == null)", "fnn()", "foff(0)", "fe"],
 }
 SMALL = {"T": ["true", "vt"], "F": ["false", "vf"], "N": ["null", "vn", "vu"]}
 
@@ -84,6 +85,11 @@ COMPAT = {("integer", "decimal"), ("decimal", "integer")}
 
 def expr_prog(e):
     return "print (%s); for k in 1 to 3 loop print (%s); end loop;" % (e, e)
+
+
+def rel_prog(e):
+    """a comparison with a null side is a *boolean* null: it prints null and combines like one"""
+    return expr_prog(e) + " print typeof(%s); print ((%s) or true) ((%s) and false) (not (%s)) ((%s) xor true);" % (e, e, e, e, e)
 
 
 def gen_factory(tier):
@@ -174,7 +180,7 @@ def gen_factory(tier):
                             pairs.append("%s %s %s" % (x, op, y))
                     for e in pairs:
                         yield Case("r%d" % n, [op_ctx(), op_run(PRELUDE), op_run("print (%s);" % ref), op_out(),
-                                               op_run(expr_prog(e)), op_out(), op_run(PROBE), op_out()],
+                                               op_run(rel_prog(e)), op_out(), op_run(PROBE), op_out()],
                                    {"kind": "rel", "e": e, "ref": ref, "op": op, "types": tx + "," + ty})
                         n += 1
     return gen
@@ -233,8 +239,8 @@ def check(case, res):
             return vs, False
         if run.get("r") != "ok":
             vs.append(Violation("rel:%s:%s:rejected" % (m["op"], m["types"]), "%s rejected (%s) although %s is accepted" % (m["e"], run, m["ref"]), case))
-        elif out != "null\n" * 4:
-            vs.append(Violation("rel:%s:%s:value" % (m["op"], m["types"]), "%s printed %r, expected null x4" % (m["e"], out), case))
+        elif out != "null\n" * 4 + "boolean\nTRUEFALSEnullnull\n":
+            vs.append(Violation("rel:%s:%s:value" % (m["op"], m["types"]), "%s printed %r, expected null x4, then boolean, then TRUE FALSE null null" % (m["e"], out), case))
         if probe_run.get("r") != "ok" or probe_out != PROBE_EXPECT:
             vs.append(Violation("after:rel", "after %s the probes gave %r %r" % (m["e"], probe_run, probe_out), case))
         return vs, True
